@@ -210,10 +210,12 @@ def skey(v):
 
 
 def canon_strings(strings):
-    """the set of (string, weight) pairs; an operator whose weights are all zero is 'zero' (which string survives
-    the pruning depends on the insertion order only)"""
-    if all(w == ["0/1", "0/1"] for _, _, w in strings):
-        return "zero"
+    """the set of (string, weight) pairs; an operator all of whose weights are within the pruning tolerance is
+    'negligible' (which single string survives the pruning depends on the insertion order only)"""
+    from common import unq
+    tol = Fraction(DEFAULT_TOL)
+    if all(unq(w[0]) ** 2 + unq(w[1]) ** 2 <= tol * tol for _, _, w in strings):
+        return "negligible"
     return sorted(([p, w] for _, p, w in strings), key=skey)
 
 
@@ -238,8 +240,8 @@ def compare(case, o, m):
     a, b = o["val"], m["val"]
     ca, cb = canon_strings(a["strings"]), canon_strings(b["strings"])
     if ca != cb:
-        da = [e for e in (ca if ca != "zero" else []) if cb == "zero" or e not in cb][:3]
-        db = [e for e in (cb if cb != "zero" else []) if ca == "zero" or e not in ca][:3]
+        da = [e for e in (ca if ca != "negligible" else []) if cb == "negligible" or e not in cb][:3]
+        db = [e for e in (cb if cb != "negligible" else []) if ca == "negligible" or e not in ca][:3]
         return f"(string, weight) sets differ: only impl {da}, only model {db} (impl {len(a['strings'])} strings, model {len(b['strings'])})"
     if len(a["strings"]) != len(b["strings"]):
         return f"number of strings: impl {len(a['strings'])} != model {len(b['strings'])}"
